@@ -183,9 +183,30 @@ pub fn eval_mixed<F: Fn(&StepViolation) -> bool>(scene: &Scene, owns: &F, isolat
 
 /// all sequences of length 1..=depth over the mixed alphabet, auto-closed
 pub fn explore_mixed<F: Fn(&StepViolation) -> bool + Sync>(run: &Run, prop: &str, owns: F, depth: usize, isolated: bool) {
-    let alpha = alphabet();
+    explore_alpha(run, prop, "mixed histories", alphabet(), owns, depth, isolated)
+}
+
+/// a small alphabet in which clips pushed inside a layer may outlive it and clips pushed before a
+/// layer may be popped inside it (the two stacks are independent), explored deeper
+pub fn cross_alphabet() -> Vec<Op> {
+    let (wf, hf) = (W as f32, H as f32);
+    vec![
+        Op::PushClipRect(1, 0, 5, 4),
+        Op::PushClipRect(0, 1, 4, 5),
+        Op::PushClip(PathSpec::rect(-2.0, -1.0, wf + 4.0, hf + 3.0)),
+        Op::PushClip(PathSpec::poly(&[(0.25, 0.5), (wf - 0.25, 0.0), (wf * 0.5, hf - 0.25)])),
+        Op::PopClip,
+        Op::PushLayer(1.0, BlendMode::SrcOver),
+        Op::PushLayer(0.5, BlendMode::Src),
+        Op::PopLayer,
+        Op::Clear(0x80008080),
+        Op::FillRect(0., 0., wf, hf, SrcSpec::Solid(0xff204080), Opts::default()),
+    ]
+}
+
+pub fn explore_alpha<F: Fn(&StepViolation) -> bool + Sync>(run: &Run, prop: &str, name: &str, alpha: Vec<Op>, owns: F, depth: usize, isolated: bool) {
     let na = alpha.len();
-    run.bound("mixed histories", format!("all well-formed call sequences of length 1..={} (at full length the last call is a draw or a pop) over a mixed alphabet of {} calls (9 draws of different kinds / modes / sources, 8 clip pushes (one empty, one beside the surface, one path under both winding rules, one path covering everything), pop_clip, 4 layer pushes (one with opacity 0), pop_layer, 4 transforms (one singular); the two stacks are independent), auto-closed, on {}x{}; step oracle under the model's clip{}", depth, na, W, H, if isolated { " + isolated-surface machine" } else { "" }));
+    run.bound(name, if name != "mixed histories" { format!("all well-formed call sequences of length 1..={} over {} calls ({}), auto-closed, on {}x{}; step oracle under the model's clip{}", depth, na, alpha.iter().map(|o| o.kind()).collect::<Vec<_>>().join(", "), W, H, if isolated { " + isolated-surface machine" } else { "" }) } else { format!("all well-formed call sequences of length 1..={} (at full length the last call is a draw or a pop) over a mixed alphabet of {} calls (9 draws of different kinds / modes / sources, 8 clip pushes (one empty, one beside the surface, one path under both winding rules, one path covering everything), pop_clip, 4 layer pushes (one with opacity 0), pop_layer, 4 transforms (one singular); the two stacks are independent), auto-closed, on {}x{}; step oracle under the model's clip{}", depth, na, W, H, if isolated { " + isolated-surface machine" } else { "" }) });
     let _ = prop;
     run.par(na * na, |s, l| {
         fn rec<F: Fn(&StepViolation) -> bool + Sync>(run: &Run, s: usize, l: &mut Local, alpha: &[Op], seq: &mut Vec<Op>, depth: usize, owns: &F, isolated: bool) {
